@@ -74,7 +74,7 @@ def make_worker(tier):
                 S.violation("C12.roundtrip", "C12.roundtrip/exception:%s/%s" % (type(e).__name__, label), inp, expected="bytes and back", actual="%s: %s" % (type(e).__name__, str(e)[:300]))
                 continue
             if refcodec.same(dec, rec):
-                S.add("outcomes", "ok")
+                S.add("outcomes", ("ok", label, len(enc) // 64))
             else:
                 S.add("outcomes", "roundtrip-differs")
                 d2 = reftree.project_diff(_exactify(rec), dec)
